@@ -42,6 +42,19 @@ def path_calls(out) -> list[str]:
             if isinstance(c, ast.Call)]
 
 
+def _reads_role(e: ast.AST) -> bool:
+    """<attrs>.get('reaction'[, None]) / get_bond_attribute(..., 'reaction')"""
+    if isinstance(e, ast.Call) and isinstance(e.func, ast.Attribute):
+        if e.func.attr == "get" and e.args and isinstance(
+                e.args[0], ast.Constant) and e.args[0].value == "reaction" \
+                and (len(e.args) == 1 or norm(e.args[1]) == "None"):
+            return True
+        if e.func.attr == "get_bond_attribute" and e.args and isinstance(
+                e.args[-1], ast.Constant) and e.args[-1].value == "reaction":
+            return True
+    return False
+
+
 def role_filter(prog, res, K, meth, keep: set) -> None:
     fi = prog.resolve_method(K, meth)
     if fi is None:
@@ -51,7 +64,8 @@ def role_filter(prog, res, K, meth, keep: set) -> None:
     def bond_loops(f):
         return [n for n in ast.walk(f.node) if isinstance(n, ast.For)
                 and norm(n.iter) in ("self.bonds", "self._bond_attrs",
-                                     "self._bond_attrs.items()")]
+                                     "self._bond_attrs.items()",
+                                     "self.bonds_with_attributes.items()")]
     loops = bond_loops(fi)
     hops = 0
     while not loops and hops < 3:
@@ -87,9 +101,7 @@ def role_filter(prog, res, K, meth, keep: set) -> None:
     for role in ROLES:
         def oracle(e, pe, env, role=role):
             t = norm(e)
-            if t in ("self._bond_attrs[bond].get('reaction', None)",
-                     "self._bond_attrs[bond].get('reaction')",
-                     "self.get_bond_attribute(*bond, 'reaction')"):
+            if _reads_role(e):
                 return NONE_VALUE if role is None else role
             if t in ("keep_attributes is True", "keep_attributes"):
                 return True
@@ -198,8 +210,7 @@ def check_bonds(prog: Program, res: Result) -> None:
     for role in ROLES:
         def oracle(e, pe, env, role=role):
             t = norm(e)
-            if t in ("self._bond_attrs[bond].get('reaction', None)",
-                     "self._bond_attrs[bond].get('reaction')"):
+            if _reads_role(e):
                 return NONE_VALUE if role is None else role
             return None
         pe = PE(as_func(loops[0].body), dict(ROLE_ENV), oracle=oracle)
